@@ -435,7 +435,15 @@ func Decide(atom ast.Atom, subst *unionfind.UnionFind) (bool, []*unionfind.Union
 		if err != nil {
 			return false, nil, err
 		}
-		return abs(nums[0]-nums[1]) < nums[2], []*unionfind.UnionFind{subst}, nil
+		hi, lo := nums[0], nums[1]
+		if hi < lo {
+			hi, lo = lo, hi
+		}
+		if lo < 0 && hi > math.MaxInt64+lo {
+			// The distance exceeds MaxInt64, hence any int64 bound.
+			return false, []*unionfind.UnionFind{subst}, nil
+		}
+		return hi-lo < nums[2], []*unionfind.UnionFind{subst}, nil
 	default:
 		return false, nil, fmt.Errorf("not a builtin predicate: %s", atom.Predicate.Symbol)
 	}
